@@ -28,8 +28,10 @@ import (
 // ---- JSON shapes of Lean's Input / Obs --------------------------------------------------
 
 type WSpec struct {
-	Key int `json:"key"`
-	Len int `json:"len"`
+	Key   int `json:"key"`
+	Base  int `json:"base"`
+	Delta int `json:"delta"`
+	Len   int `json:"len"`
 }
 
 type Ev struct {
@@ -39,8 +41,9 @@ type Ev struct {
 }
 
 type ReadObs struct {
-	Kind   string `json:"kind"` // miss | complete | corrupt
-	Writer int    `json:"writer"`
+	Kind  string `json:"kind"` // miss | complete | corrupt
+	Base  int    `json:"base"`  // id of the base CRL returned (complete only)
+	Delta int    `json:"delta"` // id of the delta CRL returned, 0 = none
 }
 
 type DirObs struct {
@@ -53,7 +56,8 @@ type DirObs struct {
 type SeenObs struct {
 	Key      int    `json:"key"`
 	Kind     string `json:"kind"`
-	Writer   int    `json:"writer"`
+	Base     int    `json:"base"`
+	Delta    int    `json:"delta"`
 	AfterSet bool   `json:"afterSet"`
 }
 
@@ -69,6 +73,7 @@ type Obs struct {
 	Gets   []ReadObs `json:"gets"`
 	Probes []DirObs  `json:"probes"`
 	Seen   []SeenObs `json:"seen"`
+	Failed []int     `json:"failed"` // Set calls that returned an error, ascending
 }
 
 // ---- bundles ----------------------------------------------------------------------------
@@ -76,9 +81,11 @@ type Obs struct {
 const (
 	smallLen = 1 // abstract length of a small bundle
 	largeLen = 8 // abstract length of a large (~1 MiB) bundle
+	mediumLen = 4
 )
 
 type bund struct {
+	id       int // content id (>= 1) used in the trace
 	rl       *x509.RevocationList
 	path     string // DER on disk, for child writers
 	absLen   int
@@ -87,7 +94,43 @@ type bund struct {
 
 type pool struct {
 	small, large []*bund
+	medium       []*bund
+	deltas       []*bund
 	huge         *bund
+	all          []*bund // by id-1
+	dir          string
+	sizes        map[[2]int]int64 // size of the complete entry file for (base id, delta id)
+}
+
+func (pl *pool) add(b *bund) *bund {
+	pl.all = append(pl.all, b)
+	b.id = len(pl.all)
+	return b
+}
+
+// entrySize: size of the complete cache file holding {base, delta}, measured by storing it once.
+func (pl *pool) entrySize(base, delta *bund) (int64, error) {
+	if delta == nil {
+		return base.fileSize, nil
+	}
+	k := [2]int{base.id, delta.id}
+	if n, ok := pl.sizes[k]; ok {
+		return n, nil
+	}
+	ref := filepath.Join(pl.dir, fmt.Sprintf("refpair-%d-%d", base.id, delta.id))
+	fc, err := crl.NewFileCache(ref)
+	if err != nil {
+		return 0, err
+	}
+	if err := fc.Set(context.Background(), "ref", &corecrl.Bundle{BaseCRL: base.rl, DeltaCRL: delta.rl}); err != nil {
+		return 0, err
+	}
+	st, err := os.Stat(filepath.Join(ref, keyName("ref")))
+	if err != nil {
+		return 0, err
+	}
+	pl.sizes[k] = st.Size()
+	return st.Size(), nil
 }
 
 func makeBundle(ca *common.Cert, number int64, entries int, dir string, absLen int) (*bund, error) {
@@ -139,9 +182,13 @@ func keyName(url string) string {
 // ---- one experiment world ---------------------------------------------------------------
 
 type wplan struct {
-	key   int
-	large bool
-	child bool
+	key    int
+	large  bool
+	child  bool
+	base   *bund // explicit content; nil: a bundle of its own (small, or large when large is set)
+	delta  *bund // delta CRL stored with it, nil = none
+	fsize  int64 // child only, when limited: RLIMIT_FSIZE of the writing process
+	limited bool
 }
 
 type world struct {
@@ -152,7 +199,9 @@ type world struct {
 	urls    []string
 	names   []string
 	plans   []wplan
-	bundles []*bund // per writer
+	pool    *pool
+	bundles []*bund // per writer: the base CRL
+	deltas  []*bund // per writer: the delta CRL or nil
 }
 
 // urlFamilies: sets of DIFFERENT URL strings that a normalising / parsing implementation might
@@ -203,7 +252,7 @@ func newWorld(c *common.Ctx, pl *pool, nkeys int, plans []wplan) (*world, error)
 		return nil, err
 	}
 	fam := urlFamilies[(worldSeq+int(c.Seed))%len(urlFamilies)]
-	w := &world{root: root, cache: fc, reader: rd, plans: plans, family: fam.name}
+	w := &world{root: root, cache: fc, reader: rd, plans: plans, family: fam.name, pool: pl}
 	perm := c.Rand.Perm(len(fam.urls))
 	seen := map[string]bool{}
 	for k := 0; k < nkeys+1; k++ {
@@ -217,11 +266,15 @@ func newWorld(c *common.Ctx, pl *pool, nkeys int, plans []wplan) (*world, error)
 	}
 	c.Count("urls=" + fam.name)
 	for i, p := range plans {
-		if p.large {
+		switch {
+		case p.base != nil:
+			w.bundles = append(w.bundles, p.base)
+		case p.large:
 			w.bundles = append(w.bundles, pl.large[i%len(pl.large)])
-		} else {
+		default:
 			w.bundles = append(w.bundles, pl.small[i%len(pl.small)])
 		}
+		w.deltas = append(w.deltas, p.delta)
 	}
 	return w, nil
 }
@@ -233,14 +286,18 @@ func (w *world) input(free bool, evs []Ev) Input {
 func (w *world) specs() []WSpec {
 	out := make([]WSpec, len(w.plans))
 	for i, p := range w.plans {
-		out[i] = WSpec{Key: p.key, Len: w.bundles[i].absLen}
+		out[i] = WSpec{Key: p.key, Base: w.bundles[i].id, Len: w.bundles[i].absLen}
+		if w.deltas[i] != nil {
+			out[i].Delta = w.deltas[i].id
+		}
 	}
 	return out
 }
 
 func (w *world) cleanup() { os.RemoveAll(w.root) }
 
-// classify canonicalises a Get result: miss / complete bundle of writer i / anything else.
+// classify canonicalises a Get result: miss / complete bundle (ids of its base and delta CRL,
+// looked up by their DER among all CRLs the harness ever minted) / anything else.
 func (w *world) classify(b *corecrl.Bundle, err error) ReadObs {
 	if err != nil {
 		if errors.Is(err, corecrl.ErrCacheMiss) {
@@ -248,16 +305,40 @@ func (w *world) classify(b *corecrl.Bundle, err error) ReadObs {
 		}
 		return ReadObs{Kind: "corrupt"}
 	}
-	if b == nil || b.BaseCRL == nil || b.DeltaCRL != nil {
+	if b == nil || b.BaseCRL == nil {
 		return ReadObs{Kind: "corrupt"}
 	}
-	for i, wb := range w.bundles {
-		if bytes.Equal(b.BaseCRL.Raw, wb.rl.Raw) {
-			return ReadObs{Kind: "complete", Writer: i}
+	o := ReadObs{Kind: "complete"}
+	if o.Base = w.pool.lookup(b.BaseCRL.Raw); o.Base == 0 {
+		return ReadObs{Kind: "corrupt"}
+	}
+	if b.DeltaCRL != nil {
+		if o.Delta = w.pool.lookup(b.DeltaCRL.Raw); o.Delta == 0 {
+			return ReadObs{Kind: "corrupt"}
 		}
 	}
-	return ReadObs{Kind: "corrupt"}
+	return o
 }
+
+func (pl *pool) lookup(raw []byte) int {
+	for _, c := range pl.all {
+		if bytes.Equal(raw, c.rl.Raw) {
+			return c.id
+		}
+	}
+	return 0
+}
+
+func (w *world) bundle(i int) *corecrl.Bundle {
+	b := &corecrl.Bundle{BaseCRL: w.bundles[i].rl}
+	if w.deltas[i] != nil {
+		b.DeltaCRL = w.deltas[i].rl
+	}
+	return b
+}
+
+// dataLen is the abstract length of writer i's entry in the model (3-cell header + len cells).
+func (w *world) dataLen(i int) int { return w.bundles[i].absLen + 3 }
 
 func (w *world) get(k int) ReadObs {
 	return w.classify(w.cache.Get(context.Background(), w.urls[k]))
@@ -303,6 +384,7 @@ type writer interface {
 	await() (step string, ok bool, err error)
 	kill()
 	finish()
+	failed() bool // Set returned an error (only known for writers that ran to their end)
 }
 
 // goroutine writer: the global hook parks it on its channels. Exactly one writer runs between
@@ -315,6 +397,7 @@ type gwriter struct {
 	done    chan error
 	ended   bool
 	started bool
+	setErr  error
 }
 
 var active atomic.Pointer[gwriter]
@@ -335,7 +418,7 @@ func (g *gwriter) start() error {
 	g.started = true
 	active.Store(g)
 	go func() {
-		g.done <- g.w.cache.Set(context.Background(), g.w.urls[g.w.plans[g.idx].key], &corecrl.Bundle{BaseCRL: g.w.bundles[g.idx].rl})
+		g.done <- g.w.cache.Set(context.Background(), g.w.urls[g.w.plans[g.idx].key], g.w.bundle(g.idx))
 	}()
 	return nil
 }
@@ -358,10 +441,8 @@ func (g *gwriter) await() (string, bool, error) {
 		return s, true, nil
 	case err := <-g.done:
 		g.ended = true
+		g.setErr = err
 		active.Store(nil)
-		if err != nil {
-			return "", false, fmt.Errorf("Set failed: %w", err)
-		}
 		return "", false, nil
 	case <-time.After(stepTimeout):
 		return "", false, errors.New("goroutine writer did not reach the next hook")
@@ -369,6 +450,8 @@ func (g *gwriter) await() (string, bool, error) {
 }
 
 func (g *gwriter) kill() {}
+
+func (g *gwriter) failed() bool { return g.ended && g.setErr != nil }
 
 func (g *gwriter) finish() {
 	for g.started && !g.ended {
@@ -388,18 +471,37 @@ type cwriter struct {
 	lines  chan string
 	ended  bool
 	waited bool
+	killed bool
+}
+
+func (c *cwriter) failed() bool {
+	return c.waited && !c.killed && c.cmd.ProcessState != nil && !c.cmd.ProcessState.Success()
+}
+
+// childExtra: the delta CRL and the file size limit of a child writer
+func (w *world) childExtra(i int) []string {
+	var out []string
+	if w.deltas[i] != nil {
+		out = append(out, envDelta+"="+w.deltas[i].path)
+	}
+	if w.plans[i].limited {
+		out = append(out, fmt.Sprintf("%s=%d", envFsize, w.plans[i].fsize))
+	}
+	return out
 }
 
 func childCmd(mode string, root, url, bundlePath string, extra ...string) *exec.Cmd {
 	cmd := exec.Command(os.Args[0])
 	cmd.Env = append(os.Environ(), envMode+"="+mode, envRoot+"="+root, envURL+"="+url, envBundle+"="+bundlePath)
 	cmd.Env = append(cmd.Env, extra...)
-	cmd.Stderr = os.Stderr
+	if os.Getenv("C14_CHILD_STDERR") != "" {
+		cmd.Stderr = os.Stderr
+	}
 	return cmd
 }
 
 func (c *cwriter) start() error {
-	c.cmd = childCmd("step", c.w.root, c.w.urls[c.w.plans[c.idx].key], c.w.bundles[c.idx].path)
+	c.cmd = childCmd("step", c.w.root, c.w.urls[c.w.plans[c.idx].key], c.w.bundles[c.idx].path, c.w.childExtra(c.idx)...)
 	var err error
 	if c.stdin, err = c.cmd.StdinPipe(); err != nil {
 		return err
@@ -459,6 +561,7 @@ func (c *cwriter) kill() {
 	if c.cmd == nil || c.waited {
 		return
 	}
+	c.killed = true
 	c.cmd.Process.Kill() // SIGKILL
 	for range c.lines {
 	}
@@ -479,13 +582,13 @@ func (c *cwriter) finish() {
 	}
 }
 
-var hookAfter = map[string]string{"create": "created", "write": "written", "close": "closed", "rename": "returned"}
+var hookAfter = map[string]string{"create": "created", "write": "written", "close": "closed", "rename": "returned", "wfail": "returned"}
 
 // runSchedule executes a trace on a fresh world and returns what was observed.
 // deviations counts hook reports that did not match the step the trace asked for (a writer that
 // ended early, another hook name): the trace is emitted as asked, so the model then disagrees.
-func runSchedule(w *world, events []Ev) (Obs, int, error) {
-	obs := Obs{Gets: []ReadObs{}, Probes: []DirObs{}, Seen: []SeenObs{}}
+func runSchedule(w *world, events []Ev) (obs Obs, deviations int, err error) {
+	obs = Obs{Gets: []ReadObs{}, Probes: []DirObs{}, Seen: []SeenObs{}, Failed: []int{}}
 	ws := make([]writer, len(w.plans))
 	for i, p := range w.plans {
 		if p.child {
@@ -494,10 +597,12 @@ func runSchedule(w *world, events []Ev) (Obs, int, error) {
 			ws[i] = &gwriter{w: w, idx: i}
 		}
 	}
-	deviations := 0
 	defer func() {
-		for _, x := range ws {
+		for i, x := range ws {
 			x.finish()
+			if x.failed() {
+				obs.Failed = append(obs.Failed, i)
+			}
 		}
 		active.Store(nil)
 	}()
@@ -535,6 +640,9 @@ func runSchedule(w *world, events []Ev) (Obs, int, error) {
 				if g, isG := x.(*gwriter); isG {
 					g.finish() // let Set return: the write "has returned" from here on
 				}
+			}
+			if e.Kind == "wfail" {
+				x.finish() // the failed writer has nothing left to do but to return its error
 			}
 		}
 	}
